@@ -21,7 +21,7 @@ justification, the composition is by inspection); `joinset.size`/`first` are der
 (`Set` is only called on a set that does not have the parent yet); the group ID of a message is an input
 (`models.ToGroupID` is the subject of C06); field values are opaque tokens. A nil dereference of the Go
 code is the outcome `Status.panic`. Recursion of `emit` and the loop of `emitAll` are fuel-bounded by the
-number of pending times + 1 (`join_no_panic_no_fuel` shows neither runs out).
+number of pending times + 1 (`Kap.Props.C12.join_flush_no_panic` shows neither runs out).
 -/
 namespace Kap.C12
 
